@@ -34,6 +34,8 @@ ETree(P, S, d, e) ==
     [] e.k = "nz"       -> TPath(TRUE, <<"core", "num", NZName(e.p)>>, <<>>)
     [] e.k = "dur"      -> TPath(TRUE, <<"core", "time", "Duration">>, <<>>)
     [] e.k = "bits"     -> TPath(S.bits.lead, S.bits.segs, <<PrimTree(S, e.store), TPath(FALSE, <<S.root, "bitvec", "order", e.order>>, <<>>)>>)
+    [] e.k = "bitsg"    -> TPath(S.bits.lead, S.bits.segs, <<ETree(P, S, d, e.store), ETree(P, S, d, e.order)>>)
+    [] e.k = "order"    -> TPath(FALSE, <<S.root, "bitvec", "order", e.name>>, <<>>)
     [] e.k = "adt"      -> LET dd == DefOf(P, e.name)
                                live == SelectSeq([i \in DOMAIN dd.params |-> i], LAMBDA i : ~dd.params[i].skipped)
                                args == [k \in DOMAIN live |-> ETree(P, S, d, e.args[live[k]])]
